@@ -6,6 +6,9 @@ ALL = ["C%02d" % i for i in range(1, 20)]
 
 # id -> (technique, level text, level note, design ref)
 CHECKS = {
+ "C15": ("bounded-exhaustive error injection at every value-producing card position of base programs, locations compared with the reference interpreter's; constructive resource-error cases",
+         "5 base programs (call depth 0-2, nested modules, closures and dynamic calls, loops, table cards and natives) x every value-producing card position x 5 injected failing expressions: trace[0] must be the raising card, trace[1..] the call cards of the active chain with namespaces (plus at most the program entry); the same positions x 4 cards the compiler must reject: CompilationError.loc must be that card; 39 resource-exhaustion cases (call depth, value stack, memory, budget) whose raising card is known by construction.",
+         "Errors inside library callbacks / host re-entry excluded (those frames have no call card).", "DESIGN.md §4 C15"),
  "C07": ("explicit-state BFS over operation histories on two aliased tables of a real Vm (host API) + bounded-exhaustive enumeration of table-card sequences (script) against an insertion-ordered Vec model / the reference interpreter",
          "Host seam: every history of insert/append/pop/remove up to the stated depth over keys {0,1,2,7,1.5,\"a\" via two distinct string objects,\"b\",nil} and values {1,2,table references incl. self}, from empty and pre-filled starts (one chosen with the real hasher so that the first rehash wraps probe chains); get/contains through every equal key form and &str, len, keys(), iter(), nth_key, bucket count compared in every distinct concrete state. Script seam: every sequence of SetProperty/AppendTable/PopTable/dotted SetVar cards up to length 2 (thorough 3) on two mutually aliased tables in main / callee / closure, followed by a full read-out, against the reference interpreter.",
          "Bounded depth / length; NaN and signed-zero keys excluded per the statement.", "DESIGN.md §4 C07"),
